@@ -66,6 +66,9 @@ theorem Map_Get_c2_pin (n_Key____key : Bool) :
 theorem Map_Get_c3_pin (b__nil : Bool) :
     Gen.MapSites.Map_Get_c3 b__nil = b__nil := by pin_tac Gen.MapSites.Map_Get_c3
 
+theorem Map_Get_x0_pin (h2w : BitVec 64) (metaw : BitVec 64) :
+    Gen.MapSites.Map_Get_x0 h2w metaw = (metaw ^^^ h2w) := by pin_tac Gen.MapSites.Map_Get_x0
+
 theorem Map_Get_a1_pin (table_hasher_Hash_key : BitVec 64) :
     Gen.MapSites.Map_Get_a1 table_hasher_Hash_key = table_hasher_Hash_key := by pin_tac Gen.MapSites.Map_Get_a1
 
@@ -125,6 +128,9 @@ theorem Map_Compute_c12_pin (m_nodeManager_IsNil_newNode : Bool) :
 
 theorem Map_Compute_c14_pin (m_nodeManager_IsNil_newNode : Bool) :
     Gen.MapSites.Map_Compute_c14 m_nodeManager_IsNil_newNode = m_nodeManager_IsNil_newNode := by pin_tac Gen.MapSites.Map_Compute_c14
+
+theorem Map_Compute_x0_pin (h2w : BitVec 64) (metaw : BitVec 64) :
+    Gen.MapSites.Map_Compute_x0 h2w metaw = (metaw ^^^ h2w) := by pin_tac Gen.MapSites.Map_Compute_x0
 
 theorem Map_Compute_a1_pin (len_table_buckets : BitVec 64) :
     Gen.MapSites.Map_Compute_a1 len_table_buckets = len_table_buckets := by pin_tac Gen.MapSites.Map_Compute_a1
@@ -209,6 +215,21 @@ theorem Map_resize_c9_pin (copied : BitVec 64) :
 
 theorem Map_resize_c10_pin (i : BitVec 64) (tableLen : BitVec 64) :
     Gen.MapSites.Map_resize_c10 i tableLen = (BitVec.slt i tableLen) := by pin_tac Gen.MapSites.Map_resize_c10
+
+theorem Map_resize_x0_pin (tableLen : BitVec 64) :
+    Gen.MapSites.Map_resize_x0 tableLen = (tableLen <<< 1) := by pin_tac Gen.MapSites.Map_resize_x0
+
+theorem Map_resize_x1_pin (tableLen : BitVec 64) :
+    Gen.MapSites.Map_resize_x1 tableLen = (BitVec.sshiftRight tableLen (1)) := by pin_tac Gen.MapSites.Map_resize_x1
+
+theorem Map_resize_x2_pin (tableLen : BitVec 64) :
+    Gen.MapSites.Map_resize_x2 tableLen = (BitVec.sdiv tableLen (64#64)) := by pin_tac Gen.MapSites.Map_resize_x2
+
+theorem Map_resize_x3_pin (c : BitVec 64) (chunkSize : BitVec 64) :
+    Gen.MapSites.Map_resize_x3 c chunkSize = (c * chunkSize) := by pin_tac Gen.MapSites.Map_resize_x3
+
+theorem Map_resize_x4_pin (c : BitVec 64) (chunkSize : BitVec 64) :
+    Gen.MapSites.Map_resize_x4 c chunkSize = ((c + (1#64)) * chunkSize) := by pin_tac Gen.MapSites.Map_resize_x4
 
 theorem Map_resize_a0_pin (len_knownTable_buckets : BitVec 64) :
     Gen.MapSites.Map_resize_a0 len_knownTable_buckets = len_knownTable_buckets := by pin_tac Gen.MapSites.Map_resize_a0
@@ -388,6 +409,7 @@ theorem siteParams_pin : Gen.MapSites.siteParams = [("newMap_c0", ["sizeHint"]),
   ("Map_Get_c0", ["markedw"]),
   ("Map_Get_c2", ["n_Key____key"]),
   ("Map_Get_c3", ["b__nil"]),
+  ("Map_Get_x0", ["h2w", "metaw"]),
   ("Map_Get_a1", ["table_hasher_Hash_key"]),
   ("Map_Get_a2", ["hash"]),
   ("Map_Get_a3", ["hash"]),
@@ -408,6 +430,7 @@ theorem siteParams_pin : Gen.MapSites.siteParams = [("newMap_c0", ["sizeHint"]),
   ("Map_Compute_c11", ["emptybnot_nil"]),
   ("Map_Compute_c12", ["m_nodeManager_IsNil_newNode"]),
   ("Map_Compute_c14", ["m_nodeManager_IsNil_newNode"]),
+  ("Map_Compute_x0", ["h2w", "metaw"]),
   ("Map_Compute_a1", ["len_table_buckets"]),
   ("Map_Compute_a2", ["table_hasher_Hash_key"]),
   ("Map_Compute_a3", ["hash"]),
@@ -436,6 +459,11 @@ theorem siteParams_pin : Gen.MapSites.siteParams = [("newMap_c0", ["sizeHint"]),
   ("Map_resize_c8", ["end_", "i"]),
   ("Map_resize_c9", ["copied"]),
   ("Map_resize_c10", ["i", "tableLen"]),
+  ("Map_resize_x0", ["tableLen"]),
+  ("Map_resize_x1", ["tableLen"]),
+  ("Map_resize_x2", ["tableLen"]),
+  ("Map_resize_x3", ["c", "chunkSize"]),
+  ("Map_resize_x4", ["c", "chunkSize"]),
   ("Map_resize_a0", ["len_knownTable_buckets"]),
   ("Map_resize_a2", ["len_table_buckets"]),
   ("Map_resize_a4", ["tableLen"]),
@@ -493,31 +521,31 @@ theorem siteParams_pin : Gen.MapSites.siteParams = [("newMap_c0", ["sizeHint"]),
   ("setByte_a0", ["idx"]),
   ("setByte_r0", ["b", "shift", "w"])] := by rfl
 
-theorem shape_pin : Gen.MapSites.shape = [("NewWithSize", [0, 0, 0, 1, 0]),
-  ("New", [0, 0, 0, 1, 0]),
-  ("newMap", [1, 0, 6, 1, 0]),
-  ("newMapTable", [2, 0, 6, 1, 0]),
-  ("zeroValue", [0, 0, 0, 1, 0]),
-  ("Map_Get", [4, 1, 12, 2, 0]),
-  ("Map_Compute", [15, 1, 26, 6, 0]),
-  ("Map_newerTableExists", [0, 0, 0, 1, 0]),
-  ("Map_resizeInProgress", [0, 0, 0, 1, 0]),
-  ("Map_waitForResize", [1, 0, 0, 0, 0]),
-  ("Map_resize", [11, 3, 16, 0, 1]),
-  ("Map_copyBucketWithDestLock", [3, 2, 8, 1, 0]),
-  ("Map_copyBucket", [3, 2, 8, 1, 0]),
-  ("Map_Range", [4, 1, 11, 0, 0]),
-  ("Map_Clear", [0, 0, 1, 0, 0]),
-  ("Map_Size", [0, 0, 1, 1, 0]),
-  ("appendToBucket", [3, 1, 6, 0, 0]),
-  ("mapTable_addSize", [0, 0, 1, 0, 0]),
-  ("mapTable_addSizePlain", [0, 1, 1, 0, 0]),
-  ("mapTable_sumSize", [0, 1, 1, 1, 0]),
-  ("h1", [0, 0, 0, 1, 0]),
-  ("h2", [0, 0, 0, 1, 0]),
-  ("broadcast", [0, 0, 0, 1, 0]),
-  ("firstMarkedByteIndex", [0, 0, 0, 1, 0]),
-  ("markZeroBytes", [0, 0, 0, 1, 0]),
-  ("setByte", [0, 0, 1, 1, 0])] := by rfl
+theorem shape_pin : Gen.MapSites.shape = [("NewWithSize", [0, 0, 0, 1, 0, 0]),
+  ("New", [0, 0, 0, 1, 0, 0]),
+  ("newMap", [1, 0, 6, 1, 0, 0]),
+  ("newMapTable", [2, 0, 6, 1, 0, 0]),
+  ("zeroValue", [0, 0, 0, 1, 0, 0]),
+  ("Map_Get", [4, 1, 12, 2, 0, 1]),
+  ("Map_Compute", [15, 1, 26, 6, 0, 1]),
+  ("Map_newerTableExists", [0, 0, 0, 1, 0, 0]),
+  ("Map_resizeInProgress", [0, 0, 0, 1, 0, 0]),
+  ("Map_waitForResize", [1, 0, 0, 0, 0, 0]),
+  ("Map_resize", [11, 3, 16, 0, 1, 5]),
+  ("Map_copyBucketWithDestLock", [3, 2, 8, 1, 0, 0]),
+  ("Map_copyBucket", [3, 2, 8, 1, 0, 0]),
+  ("Map_Range", [4, 1, 11, 0, 0, 0]),
+  ("Map_Clear", [0, 0, 1, 0, 0, 0]),
+  ("Map_Size", [0, 0, 1, 1, 0, 0]),
+  ("appendToBucket", [3, 1, 6, 0, 0, 0]),
+  ("mapTable_addSize", [0, 0, 1, 0, 0, 0]),
+  ("mapTable_addSizePlain", [0, 1, 1, 0, 0, 0]),
+  ("mapTable_sumSize", [0, 1, 1, 1, 0, 0]),
+  ("h1", [0, 0, 0, 1, 0, 0]),
+  ("h2", [0, 0, 0, 1, 0, 0]),
+  ("broadcast", [0, 0, 0, 1, 0, 0]),
+  ("firstMarkedByteIndex", [0, 0, 0, 1, 0, 0]),
+  ("markZeroBytes", [0, 0, 0, 1, 0, 0]),
+  ("setByte", [0, 0, 1, 1, 0, 0])] := by rfl
 
 end OtterVerif.Pin.MapSites
